@@ -339,6 +339,9 @@ class ReadDat(Monitor):
 
 
 def setup(concepts, spec):
+    import csv as _csv
+    _csv.register_dialect('Pipes', delimiter='|', quoting=_csv.QUOTE_MINIMAL, lineterminator='\n')
+    _csv.register_dialect('GermanExcel', delimiter=';', lineterminator='\r\n')
     attach.attach_ctor(concepts)
     C, D = concepts.Context, concepts.Definition
     cx, df, fm = concepts.contexts, concepts.definitions, concepts.formats
@@ -482,6 +485,8 @@ def run_case(concepts, case, spec):
                 ('csv', {}, {}), ('csv', {'bools_as_int': True}, {}),
                 ('csv', {'dialect': 'excel-tab'}, {'dialect': 'excel-tab'}),
                 ('csv', {'dialect': 'unix', 'bools_as_int': rng.random() < .5}, {'dialect': 'unix'}),
+                ('csv', {'dialect': 'Pipes'}, {'dialect': 'Pipes'}),
+                ('csv', {'dialect': 'GermanExcel', 'bools_as_int': True}, {'dialect': 'GermanExcel'}),
                 ('csv', {'object_header': 'name'}, {}),
                 ('csv', {'object_header': properties[0]}, {}),
                 ('csv', {'object_header': objects[-1], 'bools_as_int': True}, {}),
